@@ -576,13 +576,92 @@ def r5(ctx):
     ctx.require(n >= 1, "no switch-error report list (filled inside the chromosome loop and printed to a file) found in run_compare")
 
 
+def r6(ctx):
+    """Polyploid comparison: a flip is counted once per haplotype whose allele differs, whatever the allele values are."""
+    from sa import clangq
+
+    objs = clangq.dump(ctx.prog, "src/polyphase/switchflipcalculator.cpp", "SwitchFlipCalculator::getNumFlips")
+    fns = [m for o in objs for m in clangq.find(o, "CXXMethodDecl") if m.get("name") == "getNumFlips" and any(x.get("kind") == "CompoundStmt" for x in m.get("inner", []))]
+    ctx.require(len(fns) == 1, "SwitchFlipCalculator::getNumFlips has no body")
+    fn = fns[0]
+    where = "src/polyphase/switchflipcalculator.cpp:%s" % clangq.line_of(fn)
+    incs = [m for m in clangq.find(fn, "CompoundAssignOperator") if m.get("opcode") == "+="]
+    ups = [m for m in clangq.find(fn, "UnaryOperator") if m.get("opcode") == "++" and not any(x is m for f_ in clangq.find(fn, "ForStmt") for x in clangq.walk((f_.get("inner") or [None] * 4)[3] or {}))]
+    ok, why = None, "cannot see how getNumFlips accumulates its count"
+    if len(incs) == 1 and not ups:
+        rhs = incs[0]["inner"][1]
+        while rhs.get("kind") in ("ImplicitCastExpr", "ParenExpr", "CStyleCastExpr", "CXXStaticCastExpr") and rhs.get("inner"):
+            rhs = rhs["inner"][0]
+        if rhs.get("kind") == "BinaryOperator" and rhs.get("opcode") == "!=":
+            ok, why = True, "getNumFlips adds the truth value of `a != b` per haplotype: one per differing allele, also for alleles above 1"
+        elif rhs.get("kind") == "BinaryOperator" and rhs.get("opcode") in ("^", "-", "|", "&", "+", "*"):
+            ok, why = False, "getNumFlips adds `%s`: for multi-allelic sites (alleles above 1) a single differing haplotype counts as more than one flip error" % clangq.expr_text(rhs)
+        elif rhs.get("kind") == "ConditionalOperator":
+            c = rhs["inner"][0]
+            while c.get("kind") in ("ImplicitCastExpr", "ParenExpr") and c.get("inner"):
+                c = c["inner"][0]
+            vals = [clangq.int_value(x) for x in rhs["inner"][1:3]]
+            if c.get("kind") == "BinaryOperator" and c.get("opcode") in ("!=", "==") and sorted(v for v in vals if v is not None) == [0, 1]:
+                ok = (vals == [1, 0]) == (c.get("opcode") == "!=")
+                why = "getNumFlips adds 1 per differing allele" if ok else "getNumFlips counts the agreeing haplotypes"
+    elif not incs and len(ups) == 1:
+        ifs = [i_ for i_ in clangq.find(fn, "IfStmt") if any(x is ups[0] for x in clangq.walk(i_))]
+        if len(ifs) == 1:
+            c = ifs[0]["inner"][0]
+            while c.get("kind") in ("ImplicitCastExpr", "ParenExpr") and c.get("inner"):
+                c = c["inner"][0]
+            if c.get("kind") == "BinaryOperator" and c.get("opcode") == "!=":
+                ok, why = True, "getNumFlips counts one per haplotype with `a != b`"
+    ctx.ob("SwitchFlipCalculator::getNumFlips", "one-flip-per-differing-haplotype", ok, where, why)
+
+    # genotype agreement of two polyploid phasings compares the multisets of alleles, not a number derived from them
+    fi = ctx.func("whatshap.cli.compare.compute_matching_genotype_pos")
+    cmps = [c for c in walk_function(fi.node) if isinstance(c, ast.Compare) and len(c.ops) == 1 and isinstance(c.ops[0], (ast.Eq, ast.NotEq)) and not any(isinstance(a, ast.Assert) for a in util.ancestors(c))]
+    ctx.require(len(cmps) >= 1, "no genotype comparison in compute_matching_genotype_pos")
+
+    def resolve(e):
+        for _ in range(4):
+            if isinstance(e, ast.Name):
+                d = util.single_def(fi.node, e.id)
+                if d is None:
+                    return e
+                e = d
+            elif isinstance(e, ast.Subscript) and isinstance(e.value, (ast.Name, ast.ListComp)):
+                d = util.single_def(fi.node, e.value.id) if isinstance(e.value, ast.Name) else e.value
+                if isinstance(d, ast.ListComp) and len(d.generators) == 1:
+                    e = d.elt
+                else:
+                    return e
+            else:
+                return e
+        return e
+
+    MULTISET = ("Genotype", "sorted", "Counter", "collections.Counter")
+    LOSSY = {"sum": "the allele sum (dosage)", "set": "the set of alleles", "frozenset": "the set of alleles", "max": "the largest allele", "min": "the smallest allele", "len": "a length", "any": "a truth value", "all": "a truth value"}
+    for c in cmps:
+        sides = [resolve(c.left), resolve(c.comparators[0])]
+        kinds = []
+        for sd in sides:
+            x = sd
+            while isinstance(x, ast.Call) and u(x.func) in ("tuple", "list") and len(x.args) == 1:
+                x = x.args[0]
+            f = u(x.func) if isinstance(x, ast.Call) else None
+            kinds.append("multiset" if f in MULTISET else LOSSY.get(f))
+        if not any("phasing" in u(sd) for sd in sides):
+            continue
+        ok = True if kinds == ["multiset", "multiset"] else (False if any(k not in (None, "multiset") for k in kinds) else None)
+        bad = [k for k in kinds if k not in (None, "multiset")]
+        ctx.ob(fi.qual, "genotypes-compared-as-allele-multisets", ok, fi.loc(c), "two phasings agree on a genotype when the multisets of their alleles are equal" if ok else ("genotype agreement is decided by %s: {0, 2} and {1, 1} count as the same genotype and the position enters the switch/flip comparison" % bad[0] if bad else "cannot tell what `%s` compares" % u(c)[:80]))
+
+
 RULES = [
     ("C11.R1", "operand shape of per-position metrics (haplotype string vs list)", r1),
     ("C11.R2", "orientation test and branches of the longest-block agreement", r2),
     ("C11.R3", "run decomposition switches = s + 2f by construction", r3),
     ("C11.R4", "only present, complete phases enter blocks", r4),
     ("C11.R5", "per-chromosome switch-error records are collected afresh for each chromosome", r5),
+    ("C11.R6", "polyploid comparison: one flip per differing haplotype; genotypes as allele multisets", r6),
 ]
 # instance floors: about 60% of the instances confirmed by hand on the reference tree -- a rule that suddenly matches far fewer
 # sites fails the run (exit 2); a clean-up that merges two sites into one does not
-FLOORS = {"C11.R1": 7, "C11.R2": 1, "C11.R3": 1, "C11.R4": 1, "C11.R5": 1}
+FLOORS = {"C11.R1": 7, "C11.R2": 1, "C11.R3": 1, "C11.R4": 1, "C11.R5": 1, "C11.R6": 2}
